@@ -674,6 +674,8 @@ class FPNum:
             if (self.infinity): return self.s
             else: return -bref.s
 
+        if (self.m == 0 and bref.m == 0): return 0 # zeros are equal whatever their sign
+
         a = FPNum(self.s, self.e, self.m, self.p)
         b = FPNum(bref.s, bref.e, bref.m, bref.p)
 
